@@ -151,6 +151,28 @@ func Adopt(cur realm, n *N) *N {
 
 func Fresh(cur realm) *N { return &N{} }
 
+// fixed building blocks for the scripted shapes (GenRunScript, seeds below 16)
+func Init2(cur realm) {
+	G0 = &N{P: &N{}}
+	G1 = &N{}
+}
+
+func SwapG(cur realm) { G0, G1 = G1, G0 }
+
+func DropG(cur realm, i int) {
+	if i == 0 {
+		G0 = nil
+	} else {
+		G1 = nil
+	}
+}
+
+func Touch(cur realm) {
+	if G0 != nil {
+		G0.V++
+	}
+}
+
 func capture(x *N) func() *N {
 	return func() *N { return x }
 }
@@ -337,10 +359,27 @@ func GenProgram(seed uint64, pkgName string) string {
 // at path (a program produced by GenProgram): slices, maps, pointers to
 // anonymous structs, arrays, nested composites, and nodes obtained from the
 // realm itself and passed back.
+// fixedScripts: seeds 1.. select a hand-written body (several crossing calls = several
+// finalizations of the realm inside ONE transaction, on the same in-memory objects).
+var fixedScripts = map[uint64]string{
+	1: "\tp.Init2(cross(cur))\n",
+	// swap two owned objects (detach + re-attach before the first finalization), then really drop one
+	2: "\tp.SwapG(cross(cur))\n\tp.DropG(cross(cur), 1)\n",
+	3: "\tp.SwapG(cross(cur))\n\tp.DropG(cross(cur), 0)\n",
+	4: "\tp.SwapG(cross(cur))\n\tp.Touch(cross(cur))\n\tp.DropG(cross(cur), 1)\n\tp.DropG(cross(cur), 0)\n",
+	5: "\tp.SwapG(cross(cur))\n\tp.SwapG(cross(cur))\n\tp.DropG(cross(cur), 0)\n",
+	6: "\tp.Init2(cross(cur))\n\tp.SwapG(cross(cur))\n\tp.DropG(cross(cur), 1)\n",
+}
+
 func GenRunScript(seed uint64, path string) string {
 	r := kit.NewRand(seed*0x9E3779B1 + 5)
 	var sb strings.Builder
 	fmt.Fprintf(&sb, "package main\n\nimport p %q\n\nfunc main(cur realm) {\n", path)
+	if body, ok := fixedScripts[seed]; ok {
+		sb.WriteString(body)
+		sb.WriteString("}\n")
+		return sb.String()
+	}
 	n := 1 + r.Intn(4)
 	for i := 0; i < n; i++ {
 		k := kit.Pick(r, []string{"a", "b", "c"})
